@@ -53,9 +53,18 @@ def ticks(body, container=False):
     return n + 1
 
 
-def judge(res, scenario, fail, panic_at):
+def judge(res, scenario, fail, panic_at, base=None):
     v = []
     log = res["log"]
+    # no silent retries: pack build is invoked at most once per build / rebuild step of the scenario,
+    # docker run at most once per container / shell step
+    def count(body, ops):
+        return sum((1 if st["op"] in ops else 0) + count(st.get("body", []), ops) for st in body)
+    for prog, verb, ops, extra in (("pack", "build", ("rebuild",), 1), ("docker", "run", ("container", "shell"), 0)):
+        n_here = sum(1 for e in log if e["prog"] == prog and e["argv"][:1] == [verb])
+        n_max = count(scenario["root"]["body"], ops) + extra
+        if n_here > n_max:
+            v.append((f"repeated-invocation:{prog}-{verb}", f"{prog} {verb} was invoked {n_here} times, the scenario has {n_max} steps that invoke it"))
     dec = []
     for e in log:
         try:
@@ -159,7 +168,9 @@ def describe(sc):
 TRIPLE = "x86_64-unknown-linux-gnu"
 
 
-def packaging_scenarios(ctx, res):
+def packaging_scenarios(ctx, res, mode="cleanup"):
+    """mode "cleanup" (C16): every scenario x single faults, judged for clean-up only;
+    mode "argv" (C17): the undisturbed scenarios, judged for what pack build was given"""
     import c15
     ws = c15.W1
     tmpl = os.path.join(ctx.scratch, "pk-template")
@@ -170,16 +181,22 @@ def packaging_scenarios(ctx, res):
     r = subprocess.run(["cargo", "build", "--offline", "--quiet", "--target", TRIPLE], cwd=tmpl, env=env, stdout=subprocess.PIPE, stderr=subprocess.STDOUT)
     if r.returncode != 0:
         raise Machinery("C16: pre-building the packaging workspace failed: " + r.stdout.decode()[-400:])
+    # W1: verif/b depends on verif/a (= the current crate), verif/meta on both: the last three sets
+    # reference a buildpack that is also a dependency of another referenced one
     refs_sets = [
         [{"current": True}],
         [{"workspace": "verif/meta"}, "some/other-bp"],
         ["first/other", {"workspace": "verif/b"}, {"current": True}],
+        [{"current": True}, {"workspace": "verif/meta"}],
+        [{"workspace": "verif/meta"}, {"workspace": "verif/b"}, {"workspace": "verif/a"}],
     ]
     jobs = []
     for refs in refs_sets:
         for expected in ("success", "failure"):
             sc = {"root": {"cfg": {"buildpacks": refs, "target_triple": TRIPLE, "expected": expected, "preprocessor": expected == "failure"}, "body": [{"op": "sbom"}]}, "panic_at": None}
             jobs.append((sc, []))
+            if mode == "argv":
+                continue
             for k in (1, 2, 3, 4):
                 jobs.append((sc, [k]))
             for t in (0, 1):
@@ -191,8 +208,10 @@ def packaging_scenarios(ctx, res):
     for (sc, fail), r in zip(jobs, out):
         dev = "no fault" if not fail and sc.get("panic_at") is None else (f"external command #{fail[0]} fails{' at create time (no container)' if isinstance(fail[0], str) else ''}" if fail else f"closure panics before step {sc['panic_at']}")
         label = f"packaging build {sc['root']['cfg']['buildpacks']} [{sc['root']['cfg']['expected']}] with {dev}"
-        for sig, what in judge(r, sc, fail, sc.get("panic_at")):
-            res.violation("packaging:" + sig, f"{label}: {what}", {"scenario": sc, "fail": fail, "packaging": True})
+        if mode == "cleanup":
+            for sig, what in judge(r, sc, fail, sc.get("panic_at")):
+                res.violation("packaging:" + sig, f"{label}: {what}", {"scenario": sc, "fail": fail, "packaging": True})
+            continue
         builds = [e for e in r["log"] if e["prog"] == "pack" and e["argv"][:1] == ["build"]]
         if not builds:
             res.violation("packaging:no-pack-build", f"{label}: pack build was never invoked ({r['outcome']}: {r.get('message', '')[:200]})", {"scenario": sc, "fail": fail, "packaging": True})
@@ -294,10 +313,11 @@ def run(ctx):
         fres = list(ex.map(run_one, [(i, sc, fail, ctx.scratch) for i, (sc, fail) in enumerate(fault_jobs)], chunksize=8))
     outcomes = set()
     n = 0
+    base_of = {json.dumps(sc["root"], sort_keys=True): r for sc, r in zip(scenarios, base)}
     for (sc, fail), r in list(zip([(s, []) for s in scenarios], base)) + list(zip(fault_jobs, fres)):
         n += 1
         outcomes.add(f"{r['outcome']}:{len(r['log'])}")
-        for sig, what in judge(r, sc, fail, sc.get("panic_at")):
+        for sig, what in judge(r, sc, fail, sc.get("panic_at"), base=base_of.get(json.dumps(sc["root"], sort_keys=True))):
             dev = "no fault" if not fail and sc.get("panic_at") is None else (f"external command #{fail[0]} fails{' at create time (no container)' if isinstance(fail[0], str) else ''}" if fail else f"closure panics before step {sc['panic_at']}")
             res.violation(sig, f"{describe(sc)} with {dev}: {what}", {"scenario": sc, "fail": fail})
     # packaging scenarios: buildpack references that are packaged into a temporary directory by the
